@@ -554,6 +554,11 @@ class IPVPNBase(Label):
 
         network, data = data[:size], data[size:]
 
+        if mask % 8:
+            # RFC 4271 4.3: "the value of trailing bits is irrelevant": cleared, or two spellings of one prefix are
+            # two routes (two indexes, two RIB entries; the withdraw of one leaves the other)
+            network = bytes(network[:-1]) + bytes([network[-1] & (0xFF00 >> (mask % 8)) & 0xFF])
+
         # Build _packed format: [addpath:4?][mask:1][labels:3n][rd:8?][prefix:var]
         # Store complete wire format including RD (original_mask already includes RD bits)
         nlri_packed = bytes([original_mask]) + labels_packed + rd_packed + bytes(network)
